@@ -1,0 +1,17 @@
+//go:build verif
+
+package value
+
+// VerifKind returns the kind tag of t (0 nil, 1 int, 2 float, 3 string, 4 array, 5 bool, 6 function).
+func (t Type) VerifKind() int { return int(t.typ) }
+
+// VerifFloatBits returns the IEEE-754 bit pattern of a float value.
+func (t Type) VerifFloatBits() (uint64, bool) {
+	if t.typ != floatT {
+		return 0, false
+	}
+	return t.morph, true
+}
+
+// VerifNewFloatBits builds a float value from its bit pattern.
+func VerifNewFloatBits(bits uint64) Type { return Type{typ: floatT, morph: bits} }
